@@ -52,10 +52,10 @@ CLAIMED["C04"] = dict(
     note=COMMON_NOTE + " Uses C08_no_internal (a write after a get at the same instant succeeds on the built-in stores).")
 CLAIMED["C07"] = dict(
     text="Proof (Lean 4): lifetime - every write of an admitted request in D asks for E <= ttl <= 2*B*E (C07_ttl_bounds), denied/zero-quantity requests write nothing, and once the lifetime has passed the key answers exactly as never seen (C07_forgetting_unobservable); "
-         "reclamation - sweep postcondition; each store's guaranteed cleanup point sweeps (periodic: now >= next_cleanup; adaptive: now >= next_cleanup or operation budget; probabilistic: N-th write while ops*2654435761 < 2^64, and every write for N = 1), after which every held entry is unexpired and keys are distinct (C07_reclaimed_*). "
+         "reclamation - sweep postcondition; each store's guaranteed cleanup point sweeps (periodic: now >= next_cleanup; adaptive: now >= next_cleanup or operation budget; probabilistic: N-th write while ops*2654435761 < 2^64, every write for N = 1, exact for every power-of-two N), after which every held entry is unexpired, keys are distinct and the entry count is at most the size of the active set (C07_reclaimed_*, C07_entries_bounded_by_active). "
          "Partial in one respect: the probabilistic trigger after the 64-bit product wraps (~6.9e9 writes) is not proved (theorem named _partial). O leg: unbounded fresh-key streams on the real stores, entry set inspected through the hook after every guaranteed point.",
     design="§5 C07", technique="Lean 4 proof (lifetime arithmetic on D; per-store trigger lemmas) + state-level differential correspondence",
-    note=COMMON_NOTE + " 'bounded number of entries' is stated as: after a guaranteed cleanup point all held entries are live and keys are pairwise distinct (at most one entry per active key); the counting step to |active set| is not formalised.")
+    note=COMMON_NOTE + " The probabilistic trigger is proved before the 64-bit product wraps, for N = 1 and for every power-of-two N without that restriction; the counting step (entries <= |active set|) is C07_entries_bounded_by_active.")
 CLAIMED["C08"] = dict(
     text="Proof (Lean 4) over the bit-precise model for ALL i64 limits/quantity, every emission interval 0 <= E < 2^64 (universally quantified: no float reasoning), every stored value, timestamps 1970..2200: error classification with no store access (C08_errors), limit = burst, 0 <= remaining <= burst, retry = 0 iff admitted, all durations in range (C08_decision_fields), fresh key admits q <= burst incl. every saturation case (C08_fresh_admits), never an internal error with the built-in stores (C08_no_internal, _history), and the explicit arithmetic side-conditions of every panic site (C08_panic_sites). "
          "M/O: boundary lattice 16^4 (thorough 24^4) x timestamps x fresh/pre-populated x 3 stores, harness built with overflow checks on and off, every call under catch_unwind.",
@@ -105,7 +105,7 @@ CLAIMED["C14"] = dict(
     design="§5 C14", technique="Lean 4 proof (round-trip by structural induction; well-formedness preservation of the command layer) + differential runs",
     note=COMMON_NOTE + " to_uppercase() is an oracle input (theorems quantify over every result string); limiter error texts are assumed valid UTF-8 without CR LF (they are fixed ASCII).")
 CLAIMED["C15"] = dict(
-    text="Proof (Lean 4): for every set of record events and EVERY interleaving of their atomic increments, at every quiescent state total = http+grpc+redis = allowed+denied+errors (C15_identities via the accounting invariant C15_accounting), counters never decrease, denied/allowed/errors equal the numbers of events of that kind (C15_denied_exact); the RESP handler records 'denied' exactly for a THROTTLE that was sent and answered allowed=false, its three early returns record nothing (C15_resp_classification, C15_resp_uncounted); export carries the counter values; the increment lists are tied to the table regenerated from metrics.rs (C15_table_tie). "
+    text="Proof (Lean 4): for every set of record events and EVERY interleaving of their atomic increments, at every quiescent state total = http+grpc+redis = allowed+denied+errors (C15_identities via the accounting invariant C15_accounting), counters never decrease, denied/allowed/errors equal the numbers of events of that kind (C15_denied_exact); the RESP handler records 'denied' exactly for a THROTTLE that was sent and answered allowed=false, its three early returns record nothing (C15_resp_classification, C15_resp_uncounted); HTTP/gRPC handlers record the decision's own allowed flag or an error (C15_http_grpc_classification, call sites tied to the source by C15_tie_http_grpc_calls); export carries the counter values; the increment lists are tied to the table regenerated from metrics.rs (C15_table_tie). "
          "M/O: event lists vs the model, 8 OS threads on one Metrics with identities at barriers, which counter each real RESP command moved, /metrics scraped over HTTP and compared with what clients saw." + " PARTIAL: atomicity of fetch_add and the transports' call sites for HTTP/gRPC are validated by the runs, not proved.",
     design="§5 C15", technique="Lean 4 invariant proof over all interleavings of atomic increments + source-regenerated increment table + multi-threaded stress and socket-level runs",
     note=COMMON_NOTE + " AtomicU64::fetch_add is one atomic step (Rust/LLVM memory model trusted).")
